@@ -311,8 +311,33 @@ type CommitInfo struct {
 	CommitterDate int64
 }
 
-func DecodeCommit(body []byte) CommitInfo {
-	var ci CommitInfo
+// gitCommitDate mimics git's parse_commit_date(): the date is read from a
+// "committer" line that directly follows the "author" line, and is 0 when
+// that line's LF is the last byte of the object (a quirk that matters for
+// the enumeration order of commits without message and blank line).
+func gitCommitDate(body []byte) int64 {
+	i := bytes.Index(body, []byte("\nauthor "))
+	if i < 0 {
+		return 0
+	}
+	rest := body[i+1:]
+	nl := bytes.IndexByte(rest, '\n')
+	if nl < 0 {
+		return 0
+	}
+	rest = rest[nl+1:]
+	if !bytes.HasPrefix(rest, []byte("committer")) {
+		return 0
+	}
+	nl = bytes.IndexByte(rest, '\n')
+	if nl < 0 || nl+1 >= len(rest) {
+		return 0
+	}
+	return parseIdentDate(string(rest[:nl]))
+}
+
+func DecodeCommit(body []byte) (ci CommitInfo) {
+	defer func() { ci.CommitterDate = gitCommitDate(body) }()
 	for _, kv := range headerLines(body) {
 		switch kv[0] {
 		case "tree":
